@@ -224,6 +224,15 @@ def seeded_map(r, max_segments=12, max_total_s=9.0e5, min_segments=1):
         pts |= {tk, tk + 1, max(0, tk - 1)}
     for a, b in zip(tempo, tempo[1:]):
         pts.add((a[0] + b[0]) // 2)
+    # ticks whose distance from their tempo event is EXACTLY a whole number of seconds / minutes (where quotient-and-remainder
+    # arithmetic on floats goes wrong if it goes wrong anywhere), and their neighbours
+    bounds = [x[0] for x in tempo[1:]] + [far + 1]
+    for (tk, n), hi in zip(tempo, bounds):
+        for per in (60000, 1000):                       # ticks per second = n*res/60000, per minute = n*res/1000
+            for k in (1, 2, 5, 25, 125, 250, 1000):
+                x = Fraction(n * res * k, per)
+                if x.denominator == 1 and 0 < x and tk + x < hi:
+                    pts |= {tk + int(x), tk + int(x) + 1, tk + int(x) - 1}
     for _ in range(6):
         pts.add(r.randrange(0, max(1, far + 1)))
     pts = sorted(p for p in pts if 0 <= p <= max(far, last_t))
@@ -273,7 +282,18 @@ def chart_case_from_map(r, cid, res, tempo, pts, dense=False):
     case = {"id": cid, "res": res, "sync": sync, "events": evs, "tracks": tracks}
     if r.random() < 0.3:
         case["pad"] = r.randrange(10**9)
+    if r.random() < 0.4:
+        case["song_extra"] = random_metadata_lines(r)
     return case
+
+
+def random_metadata_lines(r):
+    """[Song] lines beyond Resolution (an audio offset, preview bounds, a difficulty, a second player ...): metadata describes
+    the song, it has no say in what a tick or a track means."""
+    pool = [f"Offset = {r.choice([0, 1, 3, 100, 10**6])}", f"PreviewStart = {r.choice([0, 5, 10**5])}", f"PreviewEnd = {r.choice([0, 9, 10**6])}",
+            f"Difficulty = {r.choice([0, 3, 6])}", f"Player2 = {r.choice(['bass', 'rhythm'])}", 'Name = "n"', 'Genre = "rock"', 'MediaType = "cd"',
+            'MusicStream = "song.ogg"', 'Year = ", 2018"', 'Charter = "c"']
+    return r.sample(pool, r.randrange(1, len(pool) + 1))
 
 
 def marathon_map(r):
